@@ -178,6 +178,10 @@ def check_case(case):
         viol("seat-count", f"elected {e.get_elected()}")
     elif rest and min(tot[c] for c in el) < max(tot[c] for c in rest):
         viol("lower-total-elected", f"elected {el} with totals {tot}")
+    # the round's groups list every candidate exactly once (a winner of a broken tie must not stay among the remaining)
+    rem = [c for g in e.get_remaining() for c in g]
+    if sorted(el + rem) != sorted(cands):
+        viol("partition", f"elected {e.get_elected()} + remaining {e.get_remaining()} is not each candidate exactly once")
     if out["nontrivial"] and not out["violations"]:
         out["sample"] = desc
     return out
